@@ -142,7 +142,7 @@ func (p C01) Run(c *sim.Ctx, t *sim.Tape) sim.RunResult {
 		if filtered && len(opPathsOf(o)) > 0 && w.avoided(c, "C01", o) {
 			c.Count("calls_steered_away_from_known_findings", 1)
 
-			o = fsx.Op{K: "Lstat", P: o.P}
+			o = insteadOf(o)
 		}
 
 		out := w.step(c, "C01", i, o, w.env, 0, 0, umask)
